@@ -1140,6 +1140,24 @@ class Interp:
             self.assign(t, v, env)
         self.ghost_asserts_after(s, env)
 
+    def forget_facts(self, names, env):
+        """drop every path fact that mentions the current payload of the given locals (dropping hypotheses is
+        always sound; it keeps the quantified context small once a stage's facts have been transferred)"""
+        ids = set()
+        for nm in names:
+            v = env.lookup(nm)
+            for e in ([v.arr, v.n] if isinstance(v, VSeq) else [v.dom, v.val, v.card] if isinstance(v, VMap) else []):
+                for c in _consts_of(e):
+                    ids.add(c)
+        if not ids:
+            return
+        keep = []
+        for f in self.path.pc:
+            if _consts_of(f) & ids:
+                continue
+            keep.append(f)
+        self.path.pc[:] = keep
+
     def ghost_asserts_after(self, s, env):
         """sidecar cut points: `asserts={"var": [clauses]}` are proved (named obligations) and then assumed
         right after a statement of the contract's own function that assigns `var`"""
@@ -1155,6 +1173,9 @@ class Interp:
             for i, cl in enumerate(c.asserts.get(nm, [])):
                 if cl.startswith("ghost:"):
                     self.exec_ghost(cl[6:], env)
+                    continue
+                if cl.startswith("forget:"):
+                    self.forget_facts([x.strip() for x in cl[7:].split(",")], env)
                     continue
                 self.path.prove(self.eval_spec(cl, env), "%s/assert-after:%s#%d" % (c.short, nm, i), "assert", where=cl,
                                 assume_form=self.eval_spec(cl, env, assume=True))
@@ -1671,6 +1692,24 @@ class Interp:
 
 
 _MISSING = object()
+
+
+def _consts_of(e):
+    out = set()
+    seen = set()
+    st = [e]
+    while st:
+        x = st.pop()
+        if x.get_id() in seen:
+            continue
+        seen.add(x.get_id())
+        if z3.is_quantifier(x):
+            st.append(x.body())
+        elif z3.is_app(x):
+            if x.num_args() == 0 and x.decl().kind() == z3.Z3_OP_UNINTERPRETED:
+                out.add(x.decl().name())
+            st.extend(x.children())
+    return out
 
 
 class SpecUndef(Exception):
